@@ -120,6 +120,7 @@ def run(ck):
         for tag in ("r", "q"):
             if out2.get("%s%d" % (tag, i)) != b.hex():
                 ck.violation("single-block decryption is not the inverse of encryption", {"class": None, "key": k.hex(), "block": b.hex(), "direction": tag, "got": out2.get("%s%d" % (tag, i))})
+    related_key_sequences(ck, exe)
     ck.cov["optional_openssl_crosscheck"] = openssl_crosscheck(ck, cases)
     return finish_proof(ck, rule="FIPS-197 App. B/C.1 vectors, AESAVS VarTxt/VarKey families, every byte value 0..255 placed in block and key positions (touches every S-box / log-table index), random key/block pairs; both directions; plus dec(enc(b))=b / enc(dec(b))=b on the implementation. distinct = distinct case lines",
                         assumptions=["little-endian host (state_t union aliasing of g[]/s[][])"])
@@ -149,3 +150,53 @@ def openssl_crosscheck(ck, cases):
     if bad:
         ck.notes.append("SPEC-MISMATCH with openssl on %d/%d single blocks" % (bad, n))
     return "%d blocks, %d mismatches" % (n, bad)
+
+
+def related_key_sequences(ck, exe):
+    """cipher objects created one after the other IN ONE PROCESS with related keys / blocks: the same key again, a key equal to the
+    previous one up to and including a 0x00 byte, keys differing in one byte, the same block under another key, a block equal to
+    the previous output.  Anything remembered across objects (a memoised key schedule, a last-block cache) and looked up by an
+    incomplete comparison shows only on such sequences; each line alone is an ordinary case."""
+    r = ck.rng
+    mdrv = ck.model_driver()
+    lines = []
+    for s in range(60 if ck.tier == "thorough" else 16):
+        k = bytearray(rnd16(r))
+        b = rnd16(r)
+        seq = []
+        kind = s % 4
+        if kind == 0:
+            j = r.choice([0, 1, 5, 14])
+            k[j] = 0
+            k2 = bytes(k[:j + 1]) + bytes(r.randrange(256) for _ in range(15 - j))
+            seq = [("e", bytes(k), b), ("e", k2, b), ("d", k2, b), ("d", bytes(k), b), ("e", k2, rnd16(r))]
+        elif kind == 1:
+            k2 = bytearray(k); k2[r.choice([0, 15, r.randrange(16)])] ^= 1 << r.randrange(8)
+            seq = [("e", bytes(k), b), ("e", bytes(k2), b), ("e", bytes(k), b), ("d", bytes(k2), b), ("d", bytes(k), b)]
+        elif kind == 2:
+            seq = [("e", bytes(k), b), ("e", rnd16(r), b), ("d", bytes(k), b), ("d", rnd16(r), b), ("e", bytes(k), b)]
+        else:
+            seq = [("e", bytes(k), b), ("e", bytes(k), b), ("d", bytes(k), b), ("d", bytes(k), b)]
+        for d, kk, bb in seq:
+            lines.append("s%d aes %s %s %s" % (len(lines), d, kk.hex(), bb.hex()))
+    # blocks equal to the previous OUTPUT (second pass needs the spec's outputs)
+    want = wv.run_lines([mdrv, "spec"], lines, shards=1)
+    extra = []
+    for l in lines[:40]:
+        w = l.split()
+        o = want.get(w[0])
+        if o and len(o) == 32:
+            extra.append("%s %s %s %s %s" % (w[0], w[1], w[2], w[3], w[4]))
+            extra.append("x%s aes %s %s %s" % (w[0], r.choice("ed"), w[3], o))
+    want.update(wv.run_lines([mdrv, "spec"], [l for l in extra if l.startswith("x")], shards=1))
+    for name, seqlines in (("related-keys", lines), ("block-equals-previous-output", extra)):
+        got = wv.run_lines([exe], seqlines, shards=1, env=ck.env())
+        for l in seqlines:
+            cid = l.split()[0]
+            ck.cov["evaluations"] += 1
+            if got.get(cid) != want.get(cid):
+                ck.violation("single-block AES differs from FIPS-197 inside a sequence of cipher objects in one process (%s)" % name,
+                             {"class": None, "sequence": seqlines[:seqlines.index(l) + 1][-12:], "failing_line": l, "implementation": got.get(cid), "spec": want.get(cid),
+                              "replay": "feed the listed lines IN THIS ORDER to ONE process of harness/drv.cpp built against /repo"})
+                break
+    ck.cov.setdefault("case_classes", {})["sequence/related-keys-and-blocks"] = len(lines) + len(extra)
